@@ -62,6 +62,15 @@ def r1(ctx, cfg, R="C02.R1"):
         ctx.ob(R, KEY, "dispatch-storage-is-cache-of-parent", ok,
                "sub-message executes on %s, expected cache_of(param storage)" % fmt(st), fn=g, line=t["line"],
                sample=fmt(st))
+        # what the cache layer commits or drops on, and what the reply logic sees, is the router's verdict and nothing else:
+        # no other source of failure (a pre-check consulting the keeper's own tables, say) sits between the sub-message and
+        # the module configured for it
+        if inside:
+            rets = [o for o in alts(peel(P.ret(g)))]
+            okr = len(rets) == 1 and rets[0][0] == "call" and len(rets[0]) > 4 and rets[0][4] == (g.key, bid)
+            ctx.ob(R, KEY, "dispatch-closure-returns-the-router's-verdict", okr,
+                   "the closure passed to `transactional` can return something other than the result of router.execute: %s" % fmt(P.ret(g))[:200],
+                   fn=g, line=t["line"], sample="|cache, _| router.execute(api, cache, block, contract, msg)")
         m = peel(args[5]) if len(args) > 5 else ("unknown", "")
         ok = m[0] == "field" and m[2] == "msg" and is_param(m[1], "msg")
         ctx.ob(R, KEY, "dispatch-msg-is-submsg.msg", ok, "dispatched message is %s" % fmt(m), fn=g, line=t["line"],
